@@ -124,6 +124,9 @@ def unread (t : Tokenizer) (k : Nat) : Tokenizer :=
 def setDataEndBack (t : Tokenizer) (k : Nat) : Tokenizer :=
   if k ≤ t.rawE then { t with dataE := t.rawE - k } else { t with panic := true }
 
+/-- `self.raw.end += k` -/
+def addRawE (t : Tokenizer) (k : Nat) : Tokenizer := { t with rawE := t.rawE + k }
+
 theorem readByte_buf (t : Tokenizer) : t.readByte.1.buf = t.buf := by
   unfold readByte; split <;> rfl
 
@@ -333,7 +336,7 @@ local macro "dec_T" : tactic => `(tactic| (
     have hr := (readRawEndTag_rawE t);
     have h0 : t.readRawEndTag.2 = true := _h;
     have h3 := hr.2.2 h0;
-    simp only [htmlScriptEndTagLen];
+    simp only [htmlScriptEndTagLen, addRawE];
     omega))
 set_option hygiene false in
 local macro "dec_L" : tactic => `(tactic| (
@@ -444,7 +447,7 @@ def scriptGo (st : SS) (t : Tokenizer) : Tokenizer :=
     else scriptGo .doubleEscaped (r.1.unread 1)
   | .doubleEscapedEnd =>           -- read_script_data_double_escaped_end
     let r := t.readRawEndTag
-    if _h : r.2 then scriptGo .escaped { r.1 with rawE := r.1.rawE + htmlScriptEndTagLen }
+    if _h : r.2 then scriptGo .escaped (r.1.addRawE htmlScriptEndTagLen)
     else if _h' : r.1.err then r.1
     else scriptGo .doubleEscaped r.1
 termination_by (t.buf.size - t.rawE, st.rank)
@@ -710,6 +713,18 @@ def attrValUnquotedGo (t : Tokenizer) : Tokenizer :=
 termination_by t.buf.size - t.rawE
 decreasing_by exact readByte_decr t _h
 
+/-- `read_tag_name_attr_value`, after the `=` was read -/
+def attrValRest (t : Tokenizer) : Tokenizer :=
+  let t2 := t.skipWhiteSpace
+  if t2.err then t2
+  else
+    let q := t2.readByte
+    if q.1.err then q.1
+    else if q.2 == 62 then q.1.unread 1
+    else if q.2 == 39 || q.2 == 34 then attrValQuotedGo { q.1 with pvS := q.1.rawE } q.2
+    else if q.1.rawE = 0 then { q.1 with panic := true }
+    else attrValUnquotedGo { q.1 with pvS := q.1.rawE - 1 }
+
 /-- `read_tag_name_attr_value` -/
 def readTagAttrVal (t : Tokenizer) : Tokenizer :=
   let t0 := { t with pvS := t.rawE, pvE := t.rawE }
@@ -719,16 +734,7 @@ def readTagAttrVal (t : Tokenizer) : Tokenizer :=
     let r := t1.readByte
     if r.1.err then r.1
     else if r.2 != 61 then r.1.unread 1
-    else
-      let t2 := r.1.skipWhiteSpace
-      if t2.err then t2
-      else
-        let q := t2.readByte
-        if q.1.err then q.1
-        else if q.2 == 62 then q.1.unread 1
-        else if q.2 == 39 || q.2 == 34 then attrValQuotedGo { q.1 with pvS := q.1.rawE } q.2
-        else if q.1.rawE = 0 then { q.1 with panic := true }
-        else attrValUnquotedGo { q.1 with pvS := q.1.rawE - 1 }
+    else attrValRest r.1
 
 /-- one iteration body of the attribute loop of `read_tag`, after the look-ahead byte was unread -/
 def readAttr (t : Tokenizer) (saveAttr : Bool) : Tokenizer :=
